@@ -240,7 +240,8 @@ def _prob(prop, q_cases, t_cases, max_size=300, layers=(None,), budget_ms=20000,
         per = max(1, 16 // len(combos))
         out = []
         for c, l in combos:
-            r = {"cfg": c, "harness": "h_prob", "cases": n * (l0_mult if l == "L0" else 1), "max_size": max_size, "shards": per, "budget_ms": budget_ms, "excl": list(GEN_EXCL),
+            r = {"cfg": c, "harness": "h_prob", "cases": n * (l0_mult if l == "L0" else 1), "max_size": max_size, "shards": per * (2 if (l == "L0" and l0_mult > 1) else 1), "budget_ms": budget_ms,
+                 "excl": list(GEN_EXCL),
                  "opts": dict(extra_opts or {})}
             if l:
                 r["opts"]["layer"] = l
@@ -253,7 +254,7 @@ _PROB_TRUST = ("Trusted: the harness's typed generator / printer / exact evaluat
                "(get, arith_value, sat value of sigma, ov value). Shapes covered by the known findings KF1-KF4 are excluded by named generator predicates and represented by their replay files.")
 
 PROPS["C01"] = {
-    "runs": _prob("C01", 1000, 20000, layers=("L0", "L1", "L3", "L2p"), l0_mult=4, budget_ms=10000),
+    "runs": _prob("C01", 1000, 20000, layers=("L0", "L1", "L3", "L2p", "L3b"), l0_mult=4, budget_ms=10000),
     "rule": "Typed RIDDLE problems generated with a printer and an exact evaluator, read and solved in-process (solver::read + solve) in each configuration of the run "
             "(quick: Debug h_max and Debug h_add + CHECK_INCONSISTENCIES; thorough: all 8 of h_max/h_add x CI off/on x Debug/Release). Layers: L0 real/int/bool variables, linear "
             "relations with rational coefficients (products with constants on either side, division, unary +/-), & | -> ^ ! == != between booleans, disjunction statements; "
@@ -273,7 +274,7 @@ PROPS["C01"] = {
     "assumptions": ["int variables are LRA reals without integrality", "constraints in user-defined rule bodies are re-evaluated only for the generated rule shapes (L2p here, C03's rules there)"],
 }
 PROPS["C02"] = {
-    "runs": _prob("C02", 800, 20000, layers=("L0", "L1", "L3", "L2p"), l0_mult=2, budget_ms=10000),
+    "runs": _prob("C02", 800, 20000, layers=("L0", "L1", "L3", "L2p", "L3b"), l0_mult=2, budget_ms=10000),
     "rule": "Same generator as C01. (a) Free problems of layers L0/L1 are translated to Z3 (reals, booleans, finite-domain integers for object variables, field accesses as ite chains): "
             "'unsolvable' (false from solve(), unsolvable / inconsistency exception from read() or solve()) while Z3 finds a model is a violation. (b) Planted problems of all layers "
             "(a witness assignment / schedule is drawn first and every emitted constraint is true under it; layer L2p: rule problems with alternative subgoals interacting through a shared "
@@ -315,10 +316,14 @@ PROPS["C05"] = {
     "assumptions": [],
 }
 PROPS["C06"] = {
-    "runs": _prob("C06", 1500, 40000, layers=("L3",), budget_ms=8000),
+    "runs": _prob("C06", 1500, 40000, layers=("L3", "L3b"), budget_ms=8000),
     "rule": "Generator of C04/C05 (facts and goals on state variables and reusable resources, whose Interval rule is applied implicitly to facts). Oracle on every reported solution, for every "
             "Active atom read back through the predicates' instance lists: origin <= start <= end <= horizon, duration == end - start, duration >= 0 (exact). Non-trivial: >= 2 active atoms. "
-            "Distinct by program text. Plain (non smart-type) Interval / Impulse predicates, agents and consumable resources are not generated.",
+            "Distinct by program text. Layer L3b (half of the shards): atoms that are NOT on state variables / reusable resources - 1-2 plain predicates extending Interval (empty body or "
+            "duration >= d, optionally a rule that introduces another interval atom starting at their end), a plain Impulse predicate, an Agent subclass with an interval and an "
+            "impulsive predicate on 1-2 agents, Produce / Consume atoms on a ConsumableResource; 1-6 facts and goals with constant times, start + duration, windows or free times, "
+            "zero-length atoms, bounded horizon; planted around a witness placement, and 1 in 5 problems ill-formed on purpose (constant start after end, impulse beyond the horizon: must "
+            "not come back solved with that atom active). Same oracle, plus origin <= at <= horizon for impulses.",
     "technique": "property-based testing; validity predicate over the reported plan",
     "level_text": "As C04.",
     "level_note": _PROB_TRUST,
@@ -349,10 +354,10 @@ PROPS["C16"]["assumptions"] = ["literals stay within 18 digits", "eval sub-run: 
 LSAN_SUPP = {"solver_teardown_keeps_flaws": "tools/lsan-kf8.supp", "builtin_type_syntax_trees_kept": "tools/lsan-kf9.supp"}
 PROPS["C18"]["runs"] = (lambda base: (lambda tier: base(tier) + [
     {"cfg": "dbg", "harness": "h_prob", "cases": 600 if tier == "quick" else 20000, "max_size": 300, "shards": 2, "budget_ms": 20000, "excl": list(GEN_EXCL),
-     "opts": {"layer": l}, "replay_args": ["--crash-violation"]} for l in ("L0", "L1", "L2", "L3")] + [
+     "opts": {"layer": l}, "replay_args": ["--crash-violation"]} for l in ("L0", "L1", "L2", "L3", "L3b")] + [
     # the same programs with LeakSanitizer at the end of every case (about 0.3 s per case: matching the suppressions of the known leak findings needs symbolised stacks)
     {"cfg": "dbg", "harness": "h_prob", "sub": "leaks", "cases": 50 if tier == "quick" else 2500, "max_size": 300, "shards": 2 if tier == "quick" else 4, "budget_ms": 20000, "excl": list(GEN_EXCL),
-     "opts": {"layer": l, "leakcheck": "1"}, "leak": True, "replay_args": ["--crash-violation"]} for l in ("L0", "L1", "L2", "L3")] + [
+     "opts": {"layer": l, "leakcheck": "1"}, "leak": True, "replay_args": ["--crash-violation"]} for l in ("L0", "L1", "L2", "L3", "L3b")] + [
     {"kind": "fuzz", "cfg": "fz", "harness": "fz_lang", "sub": "fuzz", "cases": 6000 if tier == "quick" else 400000, "max_size": 4096, "shards": 8 if tier == "quick" else 16,
      "seed_corpus": "corpus/lang", "dict": "corpus/riddle.dict"}]))(PROPS["C18"]["runs"])
 PROPS["C18"]["rule"] += (" programs (valid typed programs of the C01 generator, layers L0/L1/L3, through read()+solve() in the Debug+ASan+UBSan build): any signal, assertion failure, std::terminate or "
